@@ -1,7 +1,9 @@
 (* Line protocol driver for the C15 module-engine model.  One history per input line:
      <mode>|<op>|<op>|...
-   <mode> ::= spec | asis        (spec: add_module always starts a new revision; asis: a module that is
-                                  defined for the first time does not, src/query.rs:213)
+   <mode> ::= spec | asis | always
+                                 (spec: a first definition starts a new revision iff the module was
+                                  requested before [NewIfRequested]; asis: never, src/query.rs:213 as it
+                                  stands [NewNever]; always: every first definition [NewAlways])
    <op>   ::= set <m> <I|S> <n> [<i>,<i>,...]     define / redefine module m
             | eval <m>                             evaluate `import! m`
             | load <m> <I|S> <n> [<i>,...]         load_script = set followed by eval (value shown as ok)
@@ -53,7 +55,7 @@ let handle line =
   match String.split_on_char '|' line with
   | [] -> ""
   | mode :: ops ->
-      let bump = (String.trim mode = "spec") in
+      let bump = (match String.trim mode with "spec" -> NewIfRequested | "always" -> NewAlways | _ -> NewNever) in
       let e = ref empty_engine in
       let out = ref [] in
       let do_eval as_load m =
